@@ -399,7 +399,7 @@ pub fn run(ctx: &mut Ctx) {
     // ---- every small shape (DAGs <= 4 terms x flags x record patterns), loaded from the independent
     // encoder (so obsolete / replaced terms occur) and from the Builder where no flag is set
     let family = format_family(4, if thorough { 1 } else { 2 });
-    ctx.space("family/small-ontologies", &format!("{} fact sets (labelled DAGs over HP:1, HP:118 + <=2 terms x flag variants x record patterns) via from_bytes(encoder) and, without flags, via Builder", family.len()));
+    ctx.space("family/small-ontologies", &format!("{} fact sets (labelled DAGs over HP:1, HP:118 + <=2 terms x flag variants x record patterns) via from_bytes(encoder), without flags via Builder, with flags via from_standard in both stanza orders", family.len()));
     for (f, what) in &family {
         if !ctx.take() {
             continue;
@@ -418,6 +418,26 @@ pub fn run(ctx: &mut Ctx) {
             ctx.transitions(f.n_steps());
             if let Ok(o) = drive::build(f, Mode::Defaults) {
                 roundtrip(ctx, &o, "Builder", &case);
+            }
+        } else {
+            // flagged terms from a constructor that does not share code with the binary loader: the text
+            // loader, in ascending and descending stanza order (so a replaced term is stored both before and
+            // after its replacement; the serialiser writes terms in the order they were added)
+            let mut tf = f.clone();
+            tf.anns.retain(|a| a.term.is_some());
+            for t in tf.terms.iter_mut() {
+                if t.name.is_empty() {
+                    t.name = "n".into();
+                }
+            }
+            let n = tf.terms.len();
+            for (order, oname) in [((0..n).collect::<Vec<usize>>(), "from_standard, stanzas ascending"), ((0..n).rev().collect::<Vec<usize>>(), "from_standard, stanzas descending")] {
+                let mut o = jax::JaxOpts::default();
+                o.stanza_order = Some(order);
+                ctx.transitions(tf.n_steps());
+                if let Ok(Ok(ont)) = jax::load(&jax::render(&tf, &o), false) {
+                    roundtrip(ctx, &ont, oname, &|| json!({"family": what, "facts": tf.to_json(), "constructor": oname}));
+                }
             }
         }
         ctx.sample(|| json!({"family": what}));
